@@ -10,7 +10,7 @@ From ClapModel Require Import ParseProofs.Actions ParseProofs.Unparse ParseProof
 From ClapModel Require Import Base.Utf8 Lex.OsStrExtModel Lex.OsStrExtProofs ParseProofs.UnparseLift.
 From ClapModel Require Import ParseProofs.UnparseX ParseProofs.UnparseXProofs ParseProofs.UnparseXTree ParseProofs.UnparseXExamples.
 From ClapModel Require Import ParseProofs.Globals ParseProofs.UnparseGlobals ParseProofs.Spelling ParseProofs.UnparsePending ParseProofs.UnparseBridge.
-From ClapModel Require Import ParseProofs.Escape ParseProofs.UnparseXTrail ParseProofs.UnparseYTree ParseProofs.UnparseYExamples ParseProofs.UnparseUser ParseProofs.LoopStep ParseProofs.UnparsePendingLoop.
+From ClapModel Require Import ParseProofs.Escape ParseProofs.UnparseXTrail ParseProofs.UnparseYTree ParseProofs.UnparseYExamples ParseProofs.UnparseUser ParseProofs.LoopStep ParseProofs.UnparsePendingLoop ParseProofs.UnparseXLook.
 From Coq Require Import ZArith Sorting.Sorted Sorting.Permutation List.
 Import ListNotations.
 Open Scope N_scope.
@@ -980,3 +980,49 @@ Theorem C02_hyphen_positional_nonvacuous :
     HEx.raw_of [118] m = Some [[[49]]] /\ HEx.idx_of_m [97] m = Some [3; 4; 5; 6] /\ ms_sub m = None).
 Proof. exact (conj HEx.ex_hyps (conj HEx.ex_parse (conj HEx.ex_multi_hyps HEx.ex_multi_parse))). Qed.
 Print Assumptions C02_hyphen_positional_nonvacuous.
+
+(** (4) LOW-INDEX MULTIPLES ([<sources>... <target>]) AND [allow_missing_positional] IN THE INVOCATION LANGUAGE
+    (ParseProofs/UnparseXLook.v; tree constructor [YLook its init vl its2] of [invy], so every [_y] theorem above covers it).
+    [convx] no longer excludes either.  They switch on the LOOK-AHEAD of the positional counter correction at the second-to-last
+    positional [a] ([lookahead_at c pos]; off when [a] has a value terminator): a value followed by another plain value stays with
+    [a]; a value followed by a flag-looking token, or by nothing, goes to the LAST positional [b].  A look-ahead run is
+    [init ++ [vl]] followed by nothing or by items that start with a flag: [init] (any number of values if [a] takes several,
+    at most one otherwise; none = [a] is skipped) is one occurrence of [a], [vl] the occurrence of [b].
+    Everywhere else ([lookahead_at c pos = false]) the correction is the identity ([C02_lookahead_off]) and runs are ordinary
+    items.  After [--] the look-ahead of a low-index multiple stays live: [YTrail]/[YTva] keep [low_index_mults_any c = false]. *)
+Theorem C02_lookahead_run : forall c, convx c = true -> forall pos (init : list bytes) (vl : bytes) (next : list bytes) vaf st,
+  wfx_look c pos init vl next = true -> pend_inv c PSValuesDone st ->
+  parse_loop c (init ++ vl :: next) (mkL PSValuesDone pos vaf false) st =
+  (do s' <- look_apply c pos init vl st; parse_loop c next (mkL PSValuesDone (pos + 2) true false) s').
+Proof. exact loop_look_wf. Qed.
+Print Assumptions C02_lookahead_run.
+
+Theorem C02_lookahead_off : forall c pos, lookahead_at c pos = false ->
+  forall vaf (rest : list bytes) pst, pc_part c rest (mkL pst pos vaf false) = ROk pos.
+Proof. exact lookahead_off_of. Qed.
+Print Assumptions C02_lookahead_off.
+
+(** Non-vacuity: [prog -v <src>... <dst>] on [-v A B C] and [A B C -v]; [prog -v [first] <second>] with
+    [allow_missing_positional] on [A -v] ([first] skipped) and [-v A B]. *)
+Theorem C02_lookahead_nonvacuous :
+  (is_set s_no_binary_name LEx.c0 = false /\ valid (with_bin LEx.c0 LEx.bin) = true /\ wfy_inv LEx.c LEx.l1 = true /\ wfy_inv LEx.c LEx.l2 = true /\
+   user_conventionalx LEx.c0 = true /\ low_index_mults_any LEx.c = true /\
+   no_globals (build_recursive (S (S (depth LEx.c))) (with_bin LEx.c0 LEx.bin)) = true /\
+   render_invy LEx.l1 = [[45; 118]; [65]; [66]; [67]] /\ render_invy LEx.l2 = [[65]; [66]; [67]; [45; 118]]) /\
+  (exists m m2,
+    parse_top LEx.c0 (LEx.bin :: render_invy LEx.l1) = OOk m /\
+    LEx.raw_of [115] m = Some [[[65]; [66]]] /\ LEx.raw_of [100] m = Some [[[67]]] /\ LEx.raw_of [118] m = Some [[[49]]] /\
+    LEx.idx_of_m [115] m = Some [2; 3] /\ LEx.idx_of_m [100] m = Some [4] /\
+    parse_top LEx.c0 (LEx.bin :: render_invy LEx.l2) = OOk m2 /\
+    LEx.raw_of [115] m2 = Some [[[65]; [66]]] /\ LEx.raw_of [100] m2 = Some [[[67]]] /\ LEx.raw_of [118] m2 = Some [[[49]]] /\
+    LEx.idx_of_m [115] m2 = Some [1; 2] /\ LEx.idx_of_m [100] m2 = Some [3]) /\
+  (is_set s_no_binary_name LEx.m0 = false /\ valid (with_bin LEx.m0 LEx.bin) = true /\ wfy_inv LEx.mc LEx.a1 = true /\ wfy_inv LEx.mc LEx.a2 = true /\
+   user_conventionalx LEx.m0 = true /\ is_set s_allow_missing_pos LEx.mc = true /\
+   no_globals (build_recursive (S (S (depth LEx.mc))) (with_bin LEx.m0 LEx.bin)) = true /\
+   render_invy LEx.a1 = [[65]; [45; 118]] /\ render_invy LEx.a2 = [[45; 118]; [65]; [66]]) /\
+  (exists m m2,
+    parse_top LEx.m0 (LEx.bin :: render_invy LEx.a1) = OOk m /\ LEx.raw_of [102] m = None /\ LEx.raw_of [115] m = Some [[[65]]] /\ LEx.idx_of_m [115] m = Some [1] /\
+    parse_top LEx.m0 (LEx.bin :: render_invy LEx.a2) = OOk m2 /\ LEx.raw_of [102] m2 = Some [[[65]]] /\ LEx.raw_of [115] m2 = Some [[[66]]] /\
+    LEx.idx_of_m [102] m2 = Some [2] /\ LEx.idx_of_m [115] m2 = Some [3]).
+Proof. exact (conj LEx.ex_hyps (conj LEx.ex_parse (conj LEx.ex_amp_hyps LEx.ex_amp_parse))). Qed.
+Print Assumptions C02_lookahead_nonvacuous.
